@@ -22,10 +22,12 @@ def run(R):
               "per layer (sampled; a source may be forbidden in every layer, so single-layer fits with switched-off sources occur; masks handed in as "
               "float/integer/boolean arrays, Fortran order or nested lists), through lsq_linear_decomposition and through "
               "ReceptorEstimator.fit_decomposition, equal-L1 on/off, subsampling "
-              "on/off, opacity bounds, seeds, K/baseline. On dreye's (X, P, B_pred): bounds, mask zeros, equal layer totals, opacity "
+              "off (None, or the function's default when the argument is omitted), on a proper part of the samples (fractions 0.5, 0.75) and on a "
+              "sub-sample that covers ALL samples in random order (1.0, integer 1, 'fast', or the estimator's default when the argument is omitted), "
+              "opacity bounds (lower 0 or 0.25, upper 1 or 0.75), seeds, K/baseline. On dreye's (X, P, B_pred): bounds, mask zeros, equal layer totals, opacity "
               "bounds, B_pred = P X A'^T + baseline, the hook-recorded loss sequence is non-increasing (within solver slack), the "
               "same seed gives the same arrays when the call is repeated with the caller's same target array (and estimator), and the factor fitted last is optimal given the other: opacities by the exact KKT "
-              "check per sample, intensities by a certified gap from LP multipliers through the verified linLower. Non-trivial: "
+              "check per sample in the caller's sample order (row i of P against row i of the targets), intensities by a certified gap from LP multipliers through the verified linLower. Non-trivial: "
               "a mask containing zeros, or >= 2 layers with the equal-L1 constraint.")
     masks_all = {}
     jobs = []
@@ -51,15 +53,31 @@ def run(R):
         if rng.integers(3) == 0:
             mask = None
         eq = bool(rng.integers(2))
-        sub = None if rng.integers(2) else 0.5
-        lbp = 0.0; ubp = float(rng.choice([1.0, 0.75]))
+        via = "estimator" if ci % 3 == 0 else "function"
+        # subsampling: off / a proper part of the samples / a sub-sample that covers every sample (drawn in random order); "omitted" = the
+        # argument is not passed, so the default applies (None for the function, 'fast' = everything up to 1028 samples for the estimator)
+        subkind = ("none", "none", "omitted", "part", "part", "all", "all", "all")[int(rng.integers(8))]
+        if subkind == "none":
+            sub = None
+        elif subkind == "omitted":
+            sub = "omitted"
+        elif subkind == "part":
+            sub = float(rng.choice([0.5, 0.75]))
+        else:
+            sub = [1.0, 1, "fast"][int(rng.integers(3))]
+        # the fraction in effect (None = no subsampling: the intensities are fitted last; otherwise the opacities of all samples are)
+        sub_eff = None if (sub is None or (sub == "omitted" and via == "function")) else (sub if isinstance(sub, float) else 1.0)
+        lbp = float(rng.choice([0.0, 0.0, 0.25])); ubp = float(rng.choice([1.0, 0.75]))
         seed = int(rng.integers(100))
         Xt = lb + dyadic(rng, 0.1, 0.9, 3, size=(size, ns)) * (ub - lb)
         B = Xt @ Ap.T + bp
         c = dict(k=k, nf=nf, ns=ns, size=size, n_layers=nl, A=A, K=K, K_kind=kk, baseline=base, baseline_kind=bk, lb=lb, ub=ub, mask=mask, equal_l1=eq,
-                 subsample=sub, ubp=ubp, seed=seed, B=B)
-        for key in ("n_layers", "K_kind", "baseline_kind", "equal_l1", "subsample"):
+                 subsample=sub, subsample_in_effect=sub_eff, lbp=lbp, ubp=ubp, seed=seed, B=B)
+        for key in ("n_layers", "K_kind", "baseline_kind", "equal_l1", "lbp", "ubp"):
             R.count("%s:%s" % (key, c[key]))
+        R.count("subsample:%r" % (sub,))
+        R.count("subsample in effect:%s" % ("off (intensities fitted last)" if sub_eff is None else
+                                            ("all samples, shuffled (opacities fitted last)" if sub_eff == 1.0 else "%d of %d samples (opacities fitted last)" % (int(size * sub_eff), size))))
         mk = "none" if mask is None else ("zeros" if np.any(mask == 0) else "ones")
         R.count("mask:%s" % mk); R.count("layers=%d,mask:%s" % (nl, mk))
         if mask is not None:
@@ -72,10 +90,11 @@ def run(R):
                 mask_given = mask.astype(bool); R.count("given:mask:bool")
             else:
                 mask_given = as_given(rg, mask.copy(), R, "mask", kinds=("same", "int", "fortran", "list"))
-        via = "estimator" if ci % 3 == 0 else "function"
         c["via"] = via; R.count("via:%s" % via)
         kw = dict(n_layers=nl, mask=mask_given, lbp=lbp, ubp=ubp, max_iter=15, seed=seed,
-                  subsample=sub, equal_l1norm_constraint=eq, solver="CLARABEL")
+                  equal_l1norm_constraint=eq, solver="CLARABEL")
+        if sub != "omitted":
+            kw["subsample"] = sub
         Bg = B.copy()    # the caller's target array: the SAME object is handed to both calls (c["B"] keeps the values)
         drain()
         if via == "estimator":
@@ -99,11 +118,11 @@ def run(R):
         Ap, bp = job["Ap"], job["bp"]
         Bprime = c["B"] - bp
         nl, ns, size = c["n_layers"], c["ns"], c["size"]
-        if c["subsample"]:
+        if c["subsample_in_effect"]:
             # opacities were fitted last: per sample a bounded LS in p with C = A' X^T (nf x n_layers)
             Cmat = Ap @ X.T
             for i in range(size):
-                rowsP.append(dict(job=job, i=i, n=nl, K=None, A=Cmat, baseline=np.zeros(c["nf"]), w=np.ones(c["nf"]), b=Bprime[i], lb=np.zeros(nl), ub=np.ones(nl) * c["ubp"], xhat=P[i]))
+                rowsP.append(dict(job=job, i=i, n=nl, K=None, A=Cmat, baseline=np.zeros(c["nf"]), w=np.ones(c["nf"]), b=Bprime[i], lb=np.ones(nl) * c["lbp"], ub=np.ones(nl) * c["ubp"], xhat=P[i]))
         else:
             # intensities were fitted last: || M vec(X) - r ||^2 with M[(i,c),(l,k)] = P_il A'_ck
             M = np.einsum("il,ck->iclk", P, Ap).reshape(size * c["nf"], nl * ns); r = Bprime.reshape(-1)
@@ -141,7 +160,7 @@ def run(R):
             R.failB(dict(c, impl=X), "a masked-out source has non-zero intensity %.3g" % float(np.max(np.abs(X[c["mask"] == 0]))), sig + ":mask")
         if c["n_layers"] > 1 and c["equal_l1"] and np.max(np.abs(np.diff(X.sum(1)))) > 1e-4:
             R.failB(dict(c, impl=X, layer_totals=X.sum(1)), "layer totals are not equal: %s" % X.sum(1).tolist(), sig + ":equal-l1")
-        if np.any(P < -tol) or np.any(P > c["ubp"] + tol):
+        if np.any(P < c["lbp"] - tol) or np.any(P > c["ubp"] + tol):
             R.failB(dict(c, impl=P), "opacities outside their bounds", sig + ":opacity-bounds")
         if P.shape != (c["size"], c["n_layers"]) or np.max(np.abs(Bp - (P @ X @ Ap.T + bp))) > 1e-9 * (np.max(np.abs(Bp)) + 1):
             R.failB(dict(c, impl=[X, P, Bp]), "fitted capture is not the model's capture of opacities x intensities", sig + ":pred-mismatch")
@@ -153,7 +172,7 @@ def run(R):
         if job["st2"] != "ok" or any(not np.array_equal(np.asarray(a), np.asarray(b)) for a, b in zip(job["out"], job["out2"])):
             R.failB(dict(c), "the same seed gave a different result", sig + ":seed")
         # last factor optimal
-        if c["subsample"]:
+        if c["subsample_in_effect"]:
             for r_ in [r for r in rowsP if r["job"] is job]:
                 ok = r_["kkt_ok"]
                 if ok:
